@@ -29,19 +29,19 @@ claimed = {
    note='Scheduling points only at sync/atomic operations of updog packages (rewritten at build time); races in between are caught by the race detector, which sees only the program\'s own happens-before edges. gRPC-level concurrency is not enumerated.'),
  'C05': dict(level='exploration', engine=E1 + ' + ' + E2, ref='§4 C05',
    technique='bounded-exhaustive enumeration of AddRow sequences x 3 writer paths x 2 open modes against the model (ids, schema, universe, exact membership via a unique column) plus BFS over open/close/probe histories',
-   text='Every dataset of the small-scope product (with and without a unique id column) and of the batch-boundary families (0..2500/4097 rows, >1000 distinct values in one and two columns) is written by all writer paths and probed completely; reopen histories over {open, open-preload, close, probe} are explored breadth-first on file copies.',
+   text='Every dataset of the small-scope product (with and without a unique id column) and of the batch-boundary families (0..2500/4097 rows, >1000 distinct values in one and two columns, exact multiples of the 1000-value batch, values on more than 4096 rows, several outputs of one writer) is written by all writer paths and probed completely; reopen histories over {open, open-preload, close, probe} are explored breadth-first on file copies.',
    note='Membership is observed through a unique id column; trusts the model.'),
  'C07': dict(level='model_checking', engine=E2, ref='§4 C07',
    technique='explicit-state BFS to fixpoint over Put/Get histories of the real LRUCache (state = dump of real internal state + reference-model state), relations R1-R6 checked on every transition',
    text='Every reachable state of the real LRUCache for a 15-operation alphabet (3 keys x 4 bitmap size classes) and 20 capacities is visited (fixpoint, not a depth cut) and the lookup / byte-bound / LRU-order / counter relations are checked on every transition.',
    note='Trusts roaring GetSizeInBytes; state merging on (recency list with accounted sizes, byte counter, model state); fits/comfortably read with 128 bytes slack per entry.'),
  'C08': dict(level='model_checking', engine=E2, ref='§4 C08',
-   technique='explicit-state BFS to fixpoint over execution histories of 8 Query values on 2 indexes (state = private fields of the Query values) plus unmerged enumeration of all sequences to depth 3/5',
-   text='All histories of re-using 8 Query values (ungrouped, grouped, repeated and unknown columns, a column known to one index only) on two indexes: every execution equals a freshly constructed equal query and the visible fields stay unchanged.',
+   technique='explicit-state BFS to fixpoint over execution histories of 16 Query values on 2 indexes (state = generic dump of the private fields of the Query values) plus unmerged enumeration of all sequences to depth 3/5',
+   text='All histories of re-using 16 Query values (ungrouped, grouped, repeated and unknown columns, a column known to one index only in every operand position, values absent from one index) on two indexes, one of them cached: every execution equals a freshly constructed equal query and the visible fields stay unchanged; the caller also replaces or edits GroupBy and the expression between executions, and every Result obtained earlier must still be what it was after each later execution.',
    note='State merging on the non-Expr fields of the Query values, cross-checked by the unmerged enumeration.'),
  'C17': dict(level='model_checking', engine=E2 + ' + ' + E3, ref='§4 C17',
    technique='explicit-state BFS over open/query/close histories through real database/sql (state = pool stats + driver cache dump) and preemption-bounded schedule enumeration of concurrent first use at the driver.Driver seam with file-lock waits as scheduling points',
-   text='Sequential: all histories to depth 6/8 over 2 files x 2 option strings, <=3 live handles, pool sizes {unlimited,1}, states merged on a generic dump of the complete private state of the driver; any lock (file lock, updog mutex, bbolt lock) that cannot be taken in a single-threaded history is a hang. Concurrent: 2-3 threads Open/Query/Close on one file (same query, different bound arguments, with a shared LRU cache) under the controlled scheduler with the race detector; deadlock = a thread waiting for a lock nobody will release.',
+   text='Sequential: all histories to depth 6/8 over 2 files (one addressed through a non-canonical path) x 2 option strings, <=3 live handles, pool sizes {unlimited,1}, states merged on a generic dump of the complete private state of the driver, plus every history to depth 5 over a reduced alphabet without any merging; any lock (file lock, updog mutex, bbolt lock) that cannot be taken in a single-threaded history is a hang. Concurrent: 2-3 threads Open/Query/Close on one file (same query, different bound arguments, with a shared LRU cache) under the controlled scheduler with the race detector; deadlock = a thread waiting for a lock nobody will release.',
    note='GC disabled during replays (a finalizer could release a leaked lock); one residual class (same file under different option strings) is a recorded known finding.'),
  'C18': dict(level='model_checking', engine=E3, ref='§4 C18',
    technique='stateless enumeration of ALL interleavings (unbounded preemptions) of k goroutines x r AddRow calls on the real writers under the controlled scheduler with the Go race detector live; flushed index compared with the sequential model',
@@ -49,7 +49,7 @@ claimed = {
    note='As C04; 2-4 goroutines instead of 2..32.'),
 'C06': dict(level='fault_enumeration', engine=E4 + ' + ' + E5, ref='§4 C06',
    technique='exhaustive crash-point enumeration on the real bbolt write path: the file image before every write (plus page-granular torn writes) of every creation history is opened with OpenIndex; same through a self-SIGKILLing `updog create`',
-   text='For every history (in-memory writer via Flush and via WriteToBoltDatabase, big writer; sizes on both sides of the 1000-value / 1000-row batches) every prefix of the sequence of file writes and torn variants of multi-page writes is materialised and must be rejected or answer all probes like the complete index; a real `updog create [-b]` is SIGKILLed before its k-th write for every k.',
+   text='For every history (in-memory writer via Flush and via WriteToBoltDatabase, big writer; sizes on both sides of the 1000-value / 1000-row batches, and scattered rows whose bitmaps exceed a page) every prefix of the sequence of file writes and torn variants of multi-page writes is materialised and must be rejected or answer all probes like the complete index; a real `updog create [-b]` is SIGKILLed before its k-th write for every k.',
    note='Process death only (no loss of un-synced page cache); all file content changes go through the hooked bbolt write function; bbolt transaction atomicity is exercised, not assumed; one torn-init-write class is a recorded known finding of the bbolt dependency.'),
  'C09': dict(level='exploration', engine=E1, ref='§4 C09',
    technique='bounded-exhaustive enumeration of token strings (<=5/7 tokens), byte strings (<=4/5 symbols), generated sentences and finite families against an independent recogniser of the documented grammar, goroutine accounting under GOMAXPROCS=1',
@@ -65,10 +65,10 @@ claimed = {
    note='The literal one-shot query through the same driver is the oracle (as the property states); database/sql itself is trusted.'),
  'C12': dict(level='exploration', engine=E1, ref='§4 C12',
    technique='bounded-exhaustive enumeration of datasets x query texts x DSN option combinations, database/sql rows compared with Index.Execute on a copy of the same file',
-   text='85 datasets x 6 option strings x all expressions (depth 1/2) x 16 group-by lists: Columns, ColumnTypes, every row scanned into typed destinations, order, counts and error behaviour must match the library result.',
+   text='87 datasets (incl. quote-edged values, a column named count, prefix-related values) x 7 option strings (incl. an LRU size above 2^32) x all expressions (depth 1/2) x 20 group-by lists: Columns, ColumnTypes, every row scanned into typed destinations, order, counts and error behaviour must match the library result; two result sets open at the same time on one handle; prepared and direct execution with every ordered pair of argument lists.',
    note='The library result is the oracle (checked by C01/C02); texts come from the formatter (checked by C10).'),
  'C13': dict(level='exploration', engine=E1 + ' + ' + E5, ref='§4 C13',
-   technique='bounded-exhaustive enumeration of request batches (length 0..2/3 over 8 queries x 4 id patterns) against real `updog server` processes for 3 files x 4 option combinations; library Execute on a file copy as oracle',
+   technique='bounded-exhaustive enumeration of request batches (length 0..2/3 over 8 queries + incomplete members x 5 id patterns, long batches of 4..12) against real `updog server` processes for 4 files x 4 option combinations; library Execute on a file copy as oracle',
    text='Every batch is sent over loopback gRPC to the real server binary; order, id rule, counts, groups and all-or-nothing error behaviour are compared with the library; protobuf conversion round trip and grpc:// vs file: data source equality are checked for every query.',
    note='Loopback TCP; valid UTF-8 index strings only.'),
  'C14': dict(level='fault_enumeration', engine=E1 + ' + ' + E5, ref='§4 C14',
@@ -77,14 +77,14 @@ claimed = {
    note='Random protobuf-valid byte strings are replaced by the structural enumeration.'),
  'C15': dict(level='fault_enumeration', engine=E4 + ' + ' + E2, ref='§4 C15',
    technique='enumeration of damaged-but-valid bbolt files (full product of coarse damages over all parts, every truncation, every byte flip) x open/close histories x option sets, with a non-blocking flock probe as release oracle',
-   text='Every file of the damage space (1 268 quick / 3 026 thorough variants of a valid index, plus nonexistent, empty and non-bbolt files) x 16/32 histories: no panic, error for each listed incompleteness, path not created, file released after every failed open and after Close, Close idempotent.',
+   text='Every file of the damage space (1 266 quick / 3 026 thorough variants of a valid index, plus nonexistent, empty, non-bbolt files and a dangling symlink) x 20/32 histories: no panic, error for each listed incompleteness, path not created, file released after every failed open and after Close, Close idempotent.',
    note='Release is decided by flock(LOCK_EX|LOCK_NB) with GC disabled; a lock wait in a single-threaded history is a hang.'),
  'C16': dict(level='exploration', engine=E1 + ' + ' + E2, ref='§4 C16',
    technique='enumeration of pre-existing contents x writer sizes x {Flush, create, create -b} and of all read-only histories to depth 5/7 with SHA-256/size/mode comparison after every step',
-   text='36 clobber cases must fail and leave the file unchanged; every enabled history over {4 open variants, 4 queries, GetSchema, Close} on a copy of a valid index must leave its bytes unchanged after every step.',
+   text='75 clobber cases (8 kinds of pre-existing content incl. empty and foreign bbolt databases and symlinks x 3 sizes x 3 creation paths) must fail and leave the file unchanged; for every write k of Flush a competing exclusive creation of the output path at that moment must not be overwritten; every enabled history over {4 open variants, 4 queries, GetSchema, Close} on copies of valid indexes written by all three writer paths must leave the bytes unchanged after every step.',
    note='Runs as root: read-only permission does not by itself protect the file, the byte comparison does the work.'),
  'C19': dict(level='exploration', engine=E1 + ' + ' + E5, ref='§4 C19',
-   technique='bounded-exhaustive enumeration of CSV files (6 headers / 30 header pairs x 6 field values x 0..2/3 records) through the real `updog create` in both modes, output compared with the model; malformed inputs and existing outputs',
+   technique='bounded-exhaustive enumeration of CSV files (6 headers / 30 header pairs x 6 field values x 0..2/3 records; prefix-collision headers; 999..2001 records; raw inputs with unquoted blanks) through the real `updog create` in both modes, output compared with the model; malformed inputs and existing outputs',
    text='Every CSV of the space is ingested by the real binary in normal and --big mode; schema (naming rule), universe, counts, per-column and joint group-by must equal the model derived from what encoding/csv reads; `updog schema` must succeed; malformed input or existing output must fail without touching the output; a command that stops consuming CPU is reported as hung.',
    note='encoding/csv defines well-formedness; row order is observable only through counting queries.'),
 }
